@@ -1,1 +1,247 @@
-//! Kani harnesses (watcher)
+//! Kani harnesses for `Watcher` (child module of teos/src/watcher.rs under cfg(kani)). Serves C01, C02, C06, C08, C11.
+//!
+//! One request / one block event from a pre-state whose *shape* (which rows exist, what the cache holds, what the
+//! signature recovers to, what the node answers) is concrete per harness while the scalars that do not steer control
+//! flow (heights, balances, delays, blob length) are symbolic. Collaborators: real Gatekeeper, real Responder, real
+//! Carrier (through its contract stub where noted), DBM model, node model, cryptography stubs (models/stubs_teos.rs).
+use super::*;
+use crate::carrier::Carrier;
+use crate::responder::verif_harness::concrete_responder;
+use crate::verif_bitcoind as node;
+use crate::verif_bitcoind::Outcome;
+use crate::verif_collections::HashMap as VMap;
+use crate::verif_stubs::*;
+
+/// Dispute transaction of the harness universe: `tx(DISPUTE)`, its penalty is `tx(DISPUTE + 100)`.
+const DISPUTE: u32 = 100;
+
+impl Watcher {
+    pub(crate) fn verif_set_height(&self, h: u32) {
+        self.last_known_block_height.store(h, Ordering::Release);
+    }
+    pub(crate) fn verif_height(&self) -> u32 {
+        self.last_known_block_height.load(Ordering::Acquire)
+    }
+}
+
+/// A watcher whose locator cache (size 2) holds two blocks; block 2 contains the dispute transaction iff `in_cache`.
+/// user(0) and user(1) are registered (arbitrary records are written in place by the caller through `set_user`).
+pub(crate) fn concrete_watcher(in_cache: bool, penalty_in_index: bool) -> Watcher {
+    let p = tx(DISPUTE + 100);
+    let responder = Arc::new(concrete_responder(if penalty_in_index { Some(&p) } else { None }));
+    let gatekeeper = responder.verif_gatekeeper();
+    let dbm = responder.verif_dbm();
+    let mut cache: TxIndex<Locator, Transaction> = TxIndex::verif_empty(2, 10);
+    let empty: VMap<Locator, Transaction> = VMap::new();
+    cache.update(hdr(1), &empty);
+    let mut m: VMap<Locator, Transaction> = VMap::new();
+    if in_cache {
+        m.insert(locator_of_tx(DISPUTE), tx(DISPUTE));
+    }
+    cache.update(hdr(2), &m);
+    std::mem::forget(m);
+    let sk: SecretKey = unsafe { std::mem::transmute([1u8; 32]) };
+    Watcher {
+        locator_cache: Mutex::new(cache),
+        responder,
+        gatekeeper,
+        last_known_block_height: AtomicU32::new(0),
+        signing_key: sk,
+        tower_id: user(9),
+        dbm,
+    }
+}
+
+/// Writes user(i)'s record (memory and database) in place.
+fn set_user(w: &Watcher, i: u8, info: UserInfo) {
+    w.gatekeeper.verif_set_user(user(i), info);
+}
+
+fn the_uuid(owner: u8) -> UUID {
+    uuid_model(locator_of_tx(DISPUTE), user(owner))
+}
+
+#[derive(Clone, Copy, PartialEq, Eq)]
+enum Pre {
+    /// no row for the uuid
+    Fresh,
+    /// an appointment row (7-byte blob => 1 slot) exists
+    Stored,
+    /// appointment row and tracker exist
+    Triggered,
+}
+
+/// add_appointment shapes. `recovered`: what the signature recovers to (None = error, Some(2) = unregistered key).
+/// `expired`: the tower height is at (true) or one below (false) the subscription expiry. `slots`: the user's balance is
+/// 0 (false) or arbitrary >= 9 (true). `blob_ok`: the blob decrypts under the dispute id. `node`: verdict for the penalty.
+fn add_appointment_step(
+    recovered: Option<u8>,
+    expired: bool,
+    pre: Pre,
+    has_slots: bool,
+    in_cache: bool,
+    blob_ok: bool,
+    node_reply: Outcome,
+    len: usize,
+) {
+    let w = concrete_watcher(in_cache, false);
+    let expiry: u32 = kani::any();
+    kani::assume(expiry >= 1);
+    let gk_height = if expired { expiry } else { expiry - 1 };
+    w.gatekeeper.verif_set_height(gk_height);
+    let balance: u32 = if has_slots { kani::any() } else { 0 };
+    kani::assume(!has_slots || balance >= 9);
+    let info0 = UserInfo::new(balance, kani::any(), expiry);
+    let info1 = UserInfo::new(kani::any(), kani::any(), kani::any());
+    set_user(&w, 0, info0);
+    set_user(&w, 1, info1);
+    let wh: u32 = kani::any();
+    w.verif_set_height(wh);
+    let ch: u32 = kani::any();
+    w.responder.verif_set_carrier_height(ch);
+    let uuid0 = the_uuid(0);
+    {
+        let dbm = w.dbm.lock().unwrap();
+        if pre != Pre::Fresh {
+            dbm.verif_push_appointment(uuid0, ExtendedAppointment::new(appointment_with_blob(DISPUTE as u8, 7, 9, 9, 5), user(0), sig_of(b'o'), 3));
+        }
+        if pre == Pre::Triggered {
+            dbm.verif_push_tracker(uuid0, tracker(0, user(0), ConfirmationStatus::ConfirmedIn(4)));
+        }
+        // another user's appointment for the same locator (independent of everything below)
+        dbm.verif_push_appointment(the_uuid(1), ExtendedAppointment::new(appointment_with_blob(DISPUTE as u8, 7, 8, 8, 6), user(1), sig_of(b'p'), 2));
+    }
+    // the blob length is concrete per harness (the request handler serialises the blob: a symbolic length makes that copy
+    // unmanageable); the slot arithmetic for every length is decided at the Gatekeeper level (C07.K2)
+    let delay: u32 = kani::any();
+    let (b0, b1) = if blob_ok { (1u8, DISPUTE as u8) } else { (7u8, 7u8) };
+    let appointment = appointment_with_blob(DISPUTE as u8, len, b0, b1, delay);
+    unsafe {
+        RECOVER_SCRIPT = recovered;
+        node::SCRIPT = Some(node_reply);
+        node::QUERY_SCRIPT = Some(Outcome::Rpc(-5)); // not in the mempool
+    }
+    let other_before = w.dbm.lock().unwrap().verif_app_row(the_uuid(1));
+    let w0 = w.dbm.lock().unwrap().verif_writes();
+
+    let r = w.add_appointment(appointment, sig_of(b'u'));
+
+    let (m0, d0) = (w.gatekeeper.verif_mem(user(0)), w.gatekeeper.verif_db(user(0)));
+    let (m1, d1) = (w.gatekeeper.verif_mem(user(1)), w.gatekeeper.verif_db(user(1)));
+    let dbm = w.dbm.lock().unwrap();
+    let row = dbm.verif_app_row(uuid0);
+    let trk = dbm.verif_tracker_row(uuid0);
+    let n_sent = unsafe { node::N_SENT };
+    // --- C06: the message that was authenticated is the appointment's serialisation: locator(16) || blob || delay(4)
+    assert!(unsafe { RECOVER_CALLS } == 1 && unsafe { RECOVER_MSG.0 } == 16 + len + 4 && unsafe { RECOVER_MSG.1 } == DISPUTE as u8
+        && unsafe { RECOVER_MSG.2 } == b0 && unsafe { RECOVER_SIG0 } == b'u',
+        "C06.auth: add_appointment authenticates the user's signature over exactly the serialised appointment");
+    // --- isolation: the other user's record and appointment are untouched on every path
+    assert!(m1 == Some(info1) && d1 == Some(info1),
+        "C06.isolation: another user's subscription is never altered");
+    assert!(dbm.verif_app_row(the_uuid(1)) == other_before, "C06.isolation: another user's appointment for the same locator is never altered");
+    let authenticated = matches!(recovered, Some(k) if k < 2);
+    let slots_needed = slots_spec(len) as i64 - if pre == Pre::Fresh { 0 } else { 1 };
+    if !authenticated || recovered != Some(0) {
+        if !authenticated {
+            assert!(matches!(r, Err(AddAppointmentFailure::AuthenticationFailure)), "C06.auth: an unrecoverable or unregistered key is refused");
+            assert!(dbm.verif_writes() == w0 && n_sent == 0, "C06.auth: a refused request changes nothing");
+        }
+    } else if expired {
+        assert!(matches!(r, Err(AddAppointmentFailure::SubscriptionExpired(x)) if x == expiry), "C09.expired: the error states the expiry");
+        assert!(dbm.verif_writes() == w0 && n_sent == 0, "C06.auth: a refused request changes nothing");
+    } else if pre == Pre::Triggered {
+        assert!(matches!(r, Err(AddAppointmentFailure::AlreadyTriggered)), "C01: an appointment that was already responded to cannot be replaced");
+        assert!(dbm.verif_writes() == w0 && n_sent == 0, "C06.auth: a refused request changes nothing");
+    } else if slots_needed > balance as i64 {
+        assert!(matches!(r, Err(AddAppointmentFailure::NotEnoughSlots)), "C07.charge: refused when slots are missing");
+        assert!(dbm.verif_writes() == w0 && n_sent == 0, "C06.auth: a refused request changes nothing");
+    } else {
+        // accepted
+        let (receipt, slots, exp) = match &r {
+            Ok((a, b, c)) => (a, *b, *c),
+            Err(_) => {
+                assert!(false, "C08.accept: an authenticated, unexpired, affordable request is accepted");
+                return;
+            }
+        };
+        assert!(receipt.start_block() == wh, "C08.receipt: the start block is the tower's height at acceptance");
+        assert!(receipt.user_signature().as_bytes().first().copied() == Some(b'u') && receipt.signature().is_some(),
+            "C08.receipt: the receipt carries the user's own signature and the tower's");
+        assert!(unsafe { SIGN_CALLS } == 1 && unsafe { SIGN_MSG.0 } == 1 + 4 && unsafe { SIGN_MSG.1 } == b'u' && unsafe { SIGN_MSG.2 } == wh.to_be_bytes(),
+            "C08.receipt: the tower signs exactly user_signature || start_block");
+        assert!(exp == expiry, "C08.receipt: the reported expiry is the stored one");
+        let want_balance = (balance as i64 - slots_needed) as u32;
+        assert!(slots == want_balance && m0.map(|i| i.available_slots) == Some(want_balance)
+            && d0.map(|i| i.available_slots) == Some(want_balance),
+            "C07.charge: the balance told to the user, in memory and in the database is old - (slots(new) - slots(old))");
+        let stored_new = row.map_or(false, |a| a.blob_len == len && a.blob_tag == [b0, b1] && a.to_self_delay == delay && a.sig == b'u'
+            && a.start_block == wh && uid(&a.user_id) == 0);
+        if !in_cache {
+            assert!(stored_new, "C08.stored: the accepted version (blob, delay, signature, start block, owner) is what is stored");
+            assert!(trk.is_none() && n_sent == 0, "C02: nothing is sent for an appointment that was not triggered");
+            assert!(unsafe { DECRYPT_CALLS } == 0, "C02: an untriggered blob is not decrypted");
+        } else {
+            assert!(unsafe { DECRYPT_CALLS } == 1 && unsafe { DECRYPT_ARGS } == (len, b0, b1, DISPUTE as u8),
+                "C01.late: a late appointment's blob is decrypted with the id of the cached dispute transaction");
+            if !blob_ok {
+                assert!(n_sent == 0 && trk.is_none(), "C02: nothing is sent for a blob that does not decrypt");
+                assert!(row.is_none() || pre == Pre::Stored, "C01.late: an undecryptable late appointment is dropped");
+            } else {
+                assert!(n_sent == 1 && unsafe { node::SENT[0] }.map(|t| AsRef::<[u8; 32]>::as_ref(&t)[0]) == Some((DISPUTE + 100) as u8),
+                    "C01.late: the decrypted penalty is submitted before the request is answered");
+                let verdict = crate::carrier::verif_harness::expected_status(node_reply, ch);
+                if verdict.accepted() {
+                    assert!(stored_new, "C08.stored: the accepted version is what is stored");
+                    assert!(trk.map_or(false, |t| t.dispute == DISPUTE && t.penalty == DISPUTE + 100 && t.status == verdict && uid(&t.user_id) == 0),
+                        "C01.late: from then on the appointment is a tracker with exactly that dispute and penalty");
+                } else if matches!(verdict, ConfirmationStatus::Rejected(_)) {
+                    assert!(row.is_none() && trk.is_none(), "C01.late: if the node refuses the penalty only that appointment is dropped");
+                } else {
+                    assert!(trk.is_none(), "C02: no tracker without the node having taken the penalty");
+                    assert!(row.is_none(), "C11.retrigger: a late appointment whose penalty the node reports as already in the chain is not left behind without a tracker");
+                }
+            }
+        }
+    }
+    kani::cover!(true, "reach");
+    drop(dbm);
+    std::mem::forget(r);
+    std::mem::forget(w);
+}
+
+fn slots_spec(n: usize) -> u32 {
+    core::cmp::max(1, ((n + 2047) / 2048) as u32)
+}
+
+macro_rules! w_harness {
+    ($name:ident, $body:expr) => {
+        #[kani::proof]
+        #[kani::stub(bitcoin::Transaction::compute_txid, crate::verif_stubs::txid_model)]
+        #[kani::stub(bitcoin::block::Header::block_hash, crate::verif_stubs::block_hash_model)]
+        #[kani::stub(Carrier::hang_until_bitcoind_reachable, Carrier::hang_model)]
+        #[kani::stub(teos_common::cryptography::recover_pk, crate::verif_stubs::recover_pk_scripted)]
+        #[kani::stub(teos_common::cryptography::sign, crate::verif_stubs::sign_model)]
+        #[kani::stub(teos_common::cryptography::decrypt, crate::verif_stubs::decrypt_model)]
+        #[kani::stub(crate::extended_appointment::UUID::new, crate::verif_stubs::uuid_model)]
+        #[kani::unwind(6)]
+        fn $name() {
+            $body
+        }
+    };
+}
+
+w_harness!(c06_add_bad_signature, add_appointment_step(None, false, Pre::Fresh, true, false, true, Outcome::Ok, 3));
+w_harness!(c06_add_unregistered_key, add_appointment_step(Some(2), false, Pre::Fresh, true, true, true, Outcome::Ok, 3));
+w_harness!(c06_add_expired, add_appointment_step(Some(0), true, Pre::Fresh, true, true, true, Outcome::Ok, 3));
+w_harness!(c06_add_already_triggered, add_appointment_step(Some(0), false, Pre::Triggered, true, true, true, Outcome::Ok, 3));
+w_harness!(c07_add_no_slots, add_appointment_step(Some(0), false, Pre::Fresh, false, false, true, Outcome::Ok, 3));
+w_harness!(c07_add_two_slots, add_appointment_step(Some(0), false, Pre::Fresh, true, false, true, Outcome::Ok, 2049));
+w_harness!(c07_add_update_grow, add_appointment_step(Some(0), false, Pre::Stored, true, false, true, Outcome::Ok, 4097));
+w_harness!(c08_add_new, add_appointment_step(Some(0), false, Pre::Fresh, true, false, true, Outcome::Ok, 3));
+w_harness!(c08_add_update, add_appointment_step(Some(0), false, Pre::Stored, true, false, true, Outcome::Ok, 3));
+w_harness!(c01_add_late_accepted, add_appointment_step(Some(0), false, Pre::Fresh, true, true, true, Outcome::Ok, 3));
+w_harness!(c01_add_late_garbled, add_appointment_step(Some(0), false, Pre::Fresh, true, true, false, Outcome::Ok, 3));
+w_harness!(c01_add_late_rejected, add_appointment_step(Some(0), false, Pre::Fresh, true, true, true, Outcome::Rpc(-26), 3));
+w_harness!(c11_add_late_already_in_chain, add_appointment_step(Some(0), false, Pre::Fresh, true, true, true, Outcome::Rpc(-27), 3));
+w_harness!(c11_add_late_update_of_stored, add_appointment_step(Some(0), false, Pre::Stored, true, true, true, Outcome::Ok, 3));
